@@ -610,6 +610,47 @@ def run(prog, rep, tier):
     if n913 < 3:
         raise CheckerError("R9.13: only %d counter-bounded field enumeration loops found" % n913)
 
+    # ------------------------------------------------------------ R9.14 error kinds the reader tests for are kinds its errno mapping can produce
+    # libsystemd failures reach the renderers as io::Errors whose kind comes from errno_to_errorkind().
+    # A renderer that decides "skip this entry" versus "the journal is unreadable" by comparing the kind
+    # with a constant relies on that mapping: a kind the mapping never returns makes the comparison
+    # constantly false and its other branch unconditional.  (`kind == NotFound => ErrIgnore, else Err` in
+    # next_cat: ENOENT maps to Other, so every entry without a MESSAGE field ends the journal.)
+    R914 = rep.rule("R9.14", "every ErrorKind the journal reader compares with is in the image of errno_to_errorkind")
+    em_ = prog.body("s4lib::readers::journalreader::errno_to_errorkind")
+    image_ = set()
+    for bb in sorted(em_.live):
+        for st in em_.stmts(bb):
+            if st[0] == "=" and st[1] == [0]:
+                rv_ = st[2]
+                if rv_[0] == "use" and rv_[1][0] == "k" and isinstance(rv_[1][2], dict) and "variant" in rv_[1][2]:
+                    image_.add(rv_[1][2]["variant"])
+                elif rv_[0] == "agg" and isinstance(rv_[1], dict) and "variant" in rv_[1]:
+                    image_.add(rv_[1]["variant"])
+    if len(image_) < 3:
+        raise CheckerError("R9.14: image of errno_to_errorkind not tabulated (%s)" % sorted(image_))
+    rep.examined(R914, em_.path + "|image", sample={"kinds_produced": sorted(image_)})
+    n914 = 0
+    for rb_ in prog.bodies():
+        if not rb_.path.startswith("s4lib::readers::journalreader::") or "_tests" in rb_.path:
+            continue
+        for c in rb_.live_calls():
+            if not (c.d.endswith("::eq") or c.d.endswith("::ne")) or "ErrorKind" not in c.f:
+                continue
+            kinds_ = set()
+            for a_ in c.args:
+                for o_ in rb_.origins(a_):
+                    if o_[0] == "const":
+                        m_ = _re912.search(r"'variant': '(\w+)'|\"variant\": \"(\w+)\"", str(o_[1]))
+                        if m_:
+                            kinds_.add(m_.group(1) or m_.group(2))
+            for k_ in sorted(kinds_):
+                n914 += 1
+                rep.examined(R914, "%s|%s" % (rb_.path, k_), sample={"function": rb_.path.split("::")[-1], "line": c.line, "compared_with": k_, "produced_by_the_errno_mapping": k_ in image_})
+                if k_ not in image_:
+                    rep.violation(R914, "%s|kind-never-produced|%s" % (rb_.path, k_), "%s (line %d) compares an error's kind with ErrorKind::%s, which errno_to_errorkind never returns (it produces %s; ENOENT becomes Other); the comparison is constantly false, "
+                                  "so the branch it was meant to select (skip an entry that merely lacks a field) never runs and the journal ends at the first such entry" % (rb_.path.split("::")[-1], c.line, k_, sorted(image_)))
+
     return rep.finish(
         "Static necessary-condition check of the journal reader: the entry instant is the journal receive time (constant override; the window "
         "test value flows from sd_journal_get_realtime_usec) and -a/-b are converted as instants; libsystemd is only asked to seek in analyze "
